@@ -177,7 +177,16 @@ def impl_pca_wav(c):
     ref = np.stack(refs).reshape(*c['batch'], -1)
     dev = float(np.abs(y.numpy() - ref).max()) if tuple(y.shape) == ref.shape else -1.0
     (back,) = op.adjoint(y)
-    return {'wav_dev': dev, 'shape': list(y.shape), 'ref_shape': list(ref.shape),
+    # the hypothesis of C09_wavelet_perfect_reconstruction / _2d_ / _3d_isometry (pr_cond, c = 1) evaluated on the float filters ptwt uses
+    w = pywt.Wavelet(c['wavelet'])
+    n_taps = w.dec_len
+    flo, fhi, glo, ghi = np.array(w.dec_lo)[::-1], np.array(w.dec_hi)[::-1], np.array(w.rec_lo), np.array(w.rec_hi)
+    pr_dev = 0.0
+    for par in (0, 1):
+        for d in range(-n_taps, n_taps + 1):
+            sm = sum(glo[k] * flo[k + d] + ghi[k] * fhi[k + d] for k in range(n_taps) if k % 2 == par and 0 <= k + d < n_taps)
+            pr_dev = max(pr_dev, abs(sm - (1.0 if d == 0 else 0.0)))
+    return {'pr_dev': float(pr_dev), 'wav_dev': dev, 'shape': list(y.shape), 'ref_shape': list(ref.shape),
             'isometry_dev': float(np.abs(back.numpy() - x).max()), 'orthogonal': pywt.Wavelet(c['wavelet']).orthogonal}
 
 
@@ -196,6 +205,9 @@ def oracle_pca_wav(c, o):
         return f'wavelet coefficient stack has shape {o["shape"]}, PyWavelets gives {o["ref_shape"]}'
     if o['wav_dev'] > 1e-9:
         return f'wavelet coefficients differ from PyWavelets (mode zero) by {o["wav_dev"]:.3g}'
+    if o['orthogonal'] and o.get('pr_dev', 0.0) > 1e-9:
+        return (f'the PyWavelets filters of the orthogonal wavelet {c["wavelet"]} miss the perfect-reconstruction condition pr_cond (c = 1) by '
+                f'{o["pr_dev"]:.3g}: C09_wavelet_isometry does not cover this filter bank')
     if o['orthogonal'] and o['isometry_dev'] > 1e-9:
         return f'W^H W x != x for the orthogonal wavelet {c["wavelet"]} (deviation {o["isometry_dev"]:.3g})'
     return None
